@@ -262,15 +262,27 @@ def trace_validate(module, cfg, cases, scratch, *, chunks=None, key="cases", ext
 
 def load_findings():
     with open(os.path.join(VERIF, "known_findings.json")) as f:
-        return json.load(f)
+        doc = json.load(f)
+    # during development each property family may stage its entries in findings.d/<PID>.json;
+    # they are merged into known_findings.json at integration time
+    d = os.path.join(VERIF, "findings.d")
+    if os.path.isdir(d):
+        for name in sorted(os.listdir(d)):
+            if name.endswith(".json"):
+                with open(os.path.join(d, name)) as f:
+                    extra = json.load(f)
+                doc["findings"] += extra.get("findings", [])
+                doc["fixed"] += extra.get("fixed", [])
+    return doc
 
 
 class Report:
     """Collects verdicts for one property run, maps them to KNOWN-FINDING / VIOLATION lines,
     writes replay files and the evidence file."""
 
-    def __init__(self, pid, tier, level):
+    def __init__(self, pid, tier, level, evidence=True):
         self.pid, self.tier, self.level = pid, tier, level
+        self.write_evidence = evidence      # replays do not overwrite the evidence file
         self.t0 = time.time()
         self.violations = []        # (what, replay_path)
         self.known = {}             # deviation -> count
@@ -339,9 +351,10 @@ class Report:
               "coverage": self.cov, "assumptions": self.assumptions, "wall_s": round(wall, 2),
               "violations": len(self.violations)}
         self.cov["known_findings_seen"] = {k: len(v) for k, v in self.known.items()}
-        os.makedirs(EVIDENCE, exist_ok=True)
-        with open(os.path.join(EVIDENCE, f"{self.pid}.json"), "w") as f:
-            json.dump(ev, f, indent=1, default=str)
+        if self.write_evidence:
+            os.makedirs(EVIDENCE, exist_ok=True)
+            with open(os.path.join(EVIDENCE, f"{self.pid}.json"), "w") as f:
+                json.dump(ev, f, indent=1, default=str)
         for dev, ids in sorted(self.known.items()):
             e = self.open_findings[dev]
             print(f"KNOWN-FINDING: property={self.pid} {dev}: {e['what_fails']} "
